@@ -2,6 +2,7 @@ from yowsup.layers.network.dispatcher.dispatcher import YowConnectionDispatcher
 import asyncore
 import logging
 import socket
+import threading
 import traceback
 
 logger = logging.getLogger(__name__)
@@ -12,13 +13,21 @@ class AsyncoreConnectionDispatcher(YowConnectionDispatcher, asyncore.dispatcher_
         super(AsyncoreConnectionDispatcher, self).__init__(connectionCallbacks)
         asyncore.dispatcher_with_send.__init__(self)
         self._connected = False
+        # out_buffer is appended to by the sending threads and flushed both by them and by the asyncore loop
+        # thread (handle_write): reading it, sending and cutting what was sent must not interleave
+        self._send_lock = threading.Lock()
 
     def sendData(self, data):
         if self._connected:
-            self.out_buffer = self.out_buffer + data
-            self.initiate_send()
+            with self._send_lock:
+                self.out_buffer = self.out_buffer + data
+                asyncore.dispatcher_with_send.initiate_send(self)
         else:
             logger.warn("Attempted to send %d bytes while still not connected" % len(data))
+
+    def initiate_send(self):
+        with self._send_lock:
+            asyncore.dispatcher_with_send.initiate_send(self)
 
     def connect(self, host):
         logger.debug("connect(%s)" % str(host))
